@@ -4,6 +4,8 @@ package ipc
 
 import (
 	"fmt"
+	"go/constant"
+	"go/token"
 	"go/types"
 	"strings"
 
@@ -404,4 +406,644 @@ func ruleAcquiredThenDeferred(c *Ctx, p *Prog, rule string, fn *ssa.Function, ac
 	okBlk := errIf.Block().Succs[1-errSucc]
 	hit, path := (&Walk{Target: IsReturn, Avoid: isRelease}).FromBlock(okBlk)
 	c.Check(rule, key, p, acq.Pos(), hit == nil, "once the connection was obtained every path to a return passes its deferred Close", "after the connection was obtained a path returns without its Close having been deferred ("+PathString(p, path)+"): e.g. the backend is dialled first and a failing websocket upgrade returns before `defer backendConn.Close()` — the backend connection outlives both endpoints")
+}
+
+// keyShape symbolically expands a string value built by fmt.Sprintf, possibly
+// through module helper functions (parameters are substituted by the call's
+// arguments, context-sensitively): it returns the effective format (constant
+// %s arguments substituted) and the values rendered by the remaining verbs.
+func keyShape(p *Prog, v ssa.Value, env map[*ssa.Parameter]ssa.Value, depth int) (format string, verbs []string, args []ssa.Value, ok bool) {
+	subst := func(a ssa.Value) ssa.Value {
+		for k := 0; k < 8; k++ {
+			switch x := a.(type) {
+			case *ssa.MakeInterface:
+				a = x.X
+				continue
+			case *ssa.ChangeType:
+				a = x.X
+				continue
+			case *ssa.Parameter:
+				if r, has := env[x]; has {
+					a = r
+					continue
+				}
+			}
+			break
+		}
+		return a
+	}
+	if depth > 4 {
+		return "", nil, nil, false
+	}
+	v = subst(v)
+	call, isCall := v.(*ssa.Call)
+	if !isCall {
+		return "", nil, nil, false
+	}
+	if CalleeName(call.Common()) == "fmt.Sprintf" {
+		f, isC := ConstString(call.Call.Args[0])
+		if !isC {
+			return "", nil, nil, false
+		}
+		// variadic arguments in index order
+		var vals []ssa.Value
+		if len(call.Call.Args) > 1 {
+			if sl, isS := call.Call.Args[1].(*ssa.Slice); isS {
+				if arr, isA := sl.X.(*ssa.Alloc); isA {
+					byIdx := map[int64]ssa.Value{}
+					for _, r := range Refs(arr) {
+						if ia, isI := r.(*ssa.IndexAddr); isI {
+							idx, _ := ConstInt(ia.Index)
+							for _, u := range Refs(ia) {
+								if st, isSt := u.(*ssa.Store); isSt {
+									byIdx[idx] = st.Val
+								}
+							}
+						}
+					}
+					for k := int64(0); k < int64(len(byIdx)); k++ {
+						vals = append(vals, subst(byIdx[k]))
+					}
+				}
+			}
+		}
+		// walk the verbs
+		out := ""
+		ai := 0
+		for i := 0; i < len(f); i++ {
+			if f[i] != '%' || i+1 >= len(f) {
+				out += string(f[i])
+				continue
+			}
+			vb := f[i+1]
+			i++
+			if vb == '%' {
+				out += "%"
+				continue
+			}
+			if ai >= len(vals) {
+				return "", nil, nil, false
+			}
+			a := vals[ai]
+			ai++
+			if s, isConst := ConstString(a); isConst && (vb == 's' || vb == 'v') {
+				out += s
+				continue
+			}
+			out += "%" + string(vb)
+			verbs = append(verbs, string(vb))
+			args = append(args, a)
+		}
+		return out, verbs, args, true
+	}
+	if f := call.Call.StaticCallee(); f != nil && p.IsModFunc(f) && len(f.Blocks) > 0 {
+		rs := Returns(f)
+		if len(rs) != 1 || len(rs[0].Results) != 1 {
+			return "", nil, nil, false
+		}
+		env2 := map[*ssa.Parameter]ssa.Value{}
+		for k, prm := range f.Params {
+			if k < len(call.Call.Args) {
+				env2[prm] = subst(call.Call.Args[k])
+			}
+		}
+		return keyShape(p, ReturnValue(rs[0], 0), env2, depth+1)
+	}
+	return "", nil, nil, false
+}
+
+// ruleCacheKeysByUse: the memcache keys of the caching store, found where they
+// are used (Item.Key of the Set, key argument of the Get): an injective
+// encoding of (backend ID, request ID) of the very call, with different
+// constant parts for requests and responses.
+func ruleCacheKeysByUse(c *Ctx, p *Prog, rule string) {
+	const mc = "google.golang.org/appengine/v2/memcache"
+	formats := map[string]string{}
+	for _, m := range []struct {
+		name   string
+		write  bool
+		kind   string
+		b, r   string // expected paths of backend ID and request ID (relative to the method)
+		bi, ri int
+	}{
+		{"WriteRequest", true, "request", "", "", 2, 2},
+		{"ReadRequest", false, "request", "", "", 2, 3},
+		{"WriteResponse", true, "response", "", "", 2, 2},
+		{"ReadResponse", false, "response", "", "", 2, 3},
+	} {
+		fn := p.Func("app/cache.(*cachingStore)." + m.name)
+		key := "cache-key:" + m.name
+		if fn == nil {
+			c.Unk(rule, key, p, 0, "method not found")
+			continue
+		}
+		var kv ssa.Value
+		if m.write {
+			for _, al := range AllocsOf(fn, mc+".Item") {
+				if v, ok := LiteralField(al, "Key"); ok {
+					kv = v
+				}
+			}
+			if kv == nil {
+				for _, al := range AllocsOf(fn, "google.golang.org/appengine/v2/memcache.Item") {
+					if v, ok := LiteralField(al, "Key"); ok {
+						kv = v
+					}
+				}
+			}
+		} else {
+			EachInstr(fn, func(i ssa.Instruction) {
+				if cc := CallOf(i); cc != nil && strings.HasSuffix(CalleeName(cc), "memcache.Codec).Get") {
+					kv = Args(cc)[2]
+				}
+			})
+		}
+		if kv == nil {
+			c.Unk(rule, key, p, fn.Pos(), "no memcache key found in "+m.name+" (Item.Key / Codec.Get key)")
+			continue
+		}
+		format, verbs, args, ok := keyShape(p, kv, map[*ssa.Parameter]ssa.Value{}, 0)
+		wantB, wantR := P(fn, 2)+".BackendID", P(fn, 2)+".RequestID"
+		if !m.write {
+			wantB, wantR = P(fn, 2), P(fn, 3)
+		}
+		good := ok && len(verbs) == 2 && verbs[0] == "q" && verbs[1] == "q" && PathOf(args[0]) == wantB && PathOf(args[1]) == wantR
+		formats[m.name] = format
+		why := "the key is not a fmt.Sprintf this rule can expand"
+		if ok {
+			why = fmt.Sprintf("effective format %q with %d non-constant components", format, len(verbs))
+			if len(args) == 2 {
+				why += " (" + PathOf(args[0]) + ", " + PathOf(args[1]) + ")"
+			}
+		}
+		c.Check(rule, key, p, fn.Pos(), good, fmt.Sprintf("memcache key = Sprintf(%q, backendID, requestID) of this very call, both quoted: an injective encoding", format), m.name+": "+why+": the memcache key is not an injective %q-encoding of (backend ID, request ID) of the call — keys of different backends/requests can collide, so one backend's agent can read or answer another backend's requests")
+	}
+	c.Check(rule, "cache-key:request-vs-response", p, 0, formats["WriteRequest"] != "" && formats["WriteRequest"] == formats["ReadRequest"] && formats["WriteResponse"] == formats["ReadResponse"] && formats["WriteRequest"] != formats["WriteResponse"], "requests and responses use different constant key parts; write and read sides agree", fmt.Sprintf("key formats: %v — write/read sides must agree and requests must not share keys with responses", formats))
+}
+
+// ruleNoLockAcrossRPC: no mutex that request-path code takes (the metrics
+// handler's) is held across a network call: a response whose status is
+// recorded while the periodic export is in flight would wait for the RPC.
+func ruleNoLockAcrossRPC(c *Ctx, p *Prog, rule string) {
+	ls := ComputeLocksets(p)
+	n := 0
+	bad := ""
+	for _, fn := range p.FuncsIn("agent/metrics") {
+		EachInstrRaw(fn, func(i ssa.Instruction) {
+			cc := CallOf(i)
+			if cc == nil {
+				return
+			}
+			name := CalleeName(cc)
+			remote := strings.Contains(name, "cloud.google.com/") || strings.Contains(name, "google.golang.org/api") || strings.Contains(name, "google.golang.org/grpc") || strings.HasPrefix(name, "(*net/http.Client)") || strings.HasPrefix(name, "net/http.")
+			// the monitoring client behind the package's own interface: a method taking a context is an RPC
+			if cc.IsInvoke() && len(cc.Args) > 0 && NamedType(cc.Args[0].Type()) == "context.Context" && strings.Contains(name, "agent/metrics.") {
+				remote = true
+			}
+			if !remote {
+				return
+			}
+			n++
+			if held := ls.Held(i); len(held) > 0 {
+				bad = name[strings.LastIndex(name, "/")+1:] + " at " + p.Pos(i.Pos()) + " runs with " + held.String() + " held"
+			}
+		})
+	}
+	c.Check(rule, "metrics:no-lock-across-rpc", p, 0, n >= 1 && bad == "", fmt.Sprintf("%d remote calls of the metrics handler inspected: none runs with the handler's mutex held (counts are swapped out first)", n), "the metrics mutex is held across a network call ("+bad+"): WriteResponseCodeMetric, which the response path calls for every response, blocks for the duration of the export RPC — responses stall while metrics are emitted, and a hung monitoring endpoint wedges the agent")
+}
+
+// ruleSerialiserDoesNotBlockOnMetrics (C05): the goroutine that serialises
+// the response to the proxy records the status code asynchronously (go …) or
+// after resp.Write: a synchronous call into the metrics handler before the
+// write puts the handler's mutex on the streaming path.
+func ruleSerialiserDoesNotBlockOnMetrics(c *Ctx, p *Prog, rule string) {
+	f := c.need(p, rule, "agent/utils.NewResponseForwarder")
+	if f == nil {
+		return
+	}
+	w := c.UniqueCall(rule, p, f, true, "(*net/http.Response).Write")
+	if w == nil {
+		return
+	}
+	g := Owner(w)
+	bad := ""
+	EachInstr(g, func(i ssa.Instruction) {
+		call, isCall := i.(*ssa.Call) // plain (synchronous) calls only; `go metricHandler.…` is fine
+		if !isCall || !strings.Contains(CalleeName(call.Common()), "agent/metrics.MetricHandler)") {
+			return
+		}
+		if h, _ := (&Walk{Target: func(x ssa.Instruction) bool { return x == w }}).FromInstr(i); h != nil {
+			bad = CalleeName(call.Common()) + " at " + p.Pos(i.Pos())
+		}
+	})
+	c.Check(rule, "serialiser:no-synchronous-metrics-before-write", p, w.Pos(), bad == "", "the serialiser calls nothing of the metrics handler synchronously before resp.Write", "the serialiser calls "+bad+" synchronously before resp.Write: the metrics handler's mutex (taken by the periodic export) is now on the path of every response header and chunk")
+}
+
+// ruleWorkerPerRequest (C07.E): every request ID gets its own goroutine: the
+// worker is the direct callee of a go statement (not called in a loop inside
+// one goroutine per batch).
+func ruleWorkerPerRequest(c *Ctx, p *Prog, rule string) {
+	f := c.need(p, rule, "agent.pollForNewRequests")
+	if f == nil {
+		return
+	}
+	n, bad := 0, ""
+	for _, fn := range WithClosures(f) {
+		EachInstr(fn, func(i ssa.Instruction) {
+			if !IsCall(i, ModPath+"/agent.processOneRequest") {
+				return
+			}
+			n++
+			if _, isGo := i.(*ssa.Go); !isGo {
+				bad = "processOneRequest is called synchronously at " + p.Pos(i.Pos()) + " (in " + FuncName(fn) + ")"
+			}
+		})
+	}
+	c.Check(rule, "poll:one-goroutine-per-request", p, f.Pos(), n >= 1 && bad == "", "each request is handed to its own goroutine (go processOneRequest): a request that hangs in the backend holds up nothing else", bad+": requests of one pending-list batch are processed one after the other, so a request that hangs in the backend blocks every request listed after it")
+}
+
+// ruleMayNilDeref: a pointer value that may be nil on some path (a φ with a
+// nil edge, or a local declared without a value) is dereferenced only under a
+// nil test of that value. Panics on the worker goroutine are not recovered.
+func ruleMayNilDeref(c *Ctx, p *Prog, rule string, fns ...string) {
+	for _, name := range fns {
+		f := c.need(p, rule, name)
+		if f == nil {
+			continue
+		}
+		bad := ""
+		nphi := 0
+		for _, fn := range WithClosures(f) {
+			EachInstrRaw(fn, func(i ssa.Instruction) {
+				ph, ok := i.(*ssa.Phi)
+				if !ok {
+					return
+				}
+				if _, isPtr := ph.Type().Underlying().(*types.Pointer); !isPtr {
+					return
+				}
+				var nilEdge func(x *ssa.Phi, seen map[*ssa.Phi]bool) bool
+				nilEdge = func(x *ssa.Phi, seen map[*ssa.Phi]bool) bool {
+					if seen[x] {
+						return false
+					}
+					seen[x] = true
+					for _, e := range x.Edges {
+						if IsNilConst(e) {
+							return true
+						}
+						if y, isPhi := e.(*ssa.Phi); isPhi && nilEdge(y, seen) {
+							return true
+						}
+					}
+					return false
+				}
+				if !nilEdge(ph, map[*ssa.Phi]bool{}) {
+					return
+				}
+				nphi++
+				for _, u := range Refs(ph) {
+					deref := false
+					switch x := u.(type) {
+					case *ssa.FieldAddr:
+						deref = x.X == ssa.Value(ph)
+					case *ssa.UnOp:
+						deref = x.Op == token.MUL && x.X == ssa.Value(ph)
+					case *ssa.Call:
+						// method call with pointer receiver defined on the value type dereferences; be conservative: only explicit loads
+					}
+					if !deref {
+						continue
+					}
+					guarded := false
+					for _, g := range GuardConds(u) {
+						if bo, ok := g.Cond.(*ssa.BinOp); ok {
+							if (SameValue(bo.X, ph) && IsNilConst(bo.Y)) || (SameValue(bo.Y, ph) && IsNilConst(bo.X)) {
+								if (bo.Op == token.NEQ && g.Truth) || (bo.Op == token.EQL && !g.Truth) {
+									guarded = true
+								}
+							}
+						}
+					}
+					if !guarded {
+						bad = "a pointer that is nil on some path is dereferenced at " + p.Pos(u.Pos())
+					}
+				}
+			})
+		}
+		c.Check(rule, "nil-deref:"+name, p, f.Pos(), bad == "", fmt.Sprintf("%d possibly-nil pointer values inspected: each is dereferenced only under a nil test", nphi), name+": "+bad+" without a nil test: malformed input that takes that path panics on the worker goroutine, which terminates the agent")
+	}
+}
+
+// ruleOnlyWrappedBy (C10): the backend-facing proxy built in hostProxy reaches
+// the handler chain only through SessionHandler: nothing else calls it or
+// captures it (a bypass route for some request class skips cookie filtering).
+func ruleOnlyWrappedBy(c *Ctx, p *Prog, rule string) {
+	hp := c.need(p, rule, "agent.hostProxy")
+	if hp == nil {
+		return
+	}
+	ctor := Calls(hp, "net/http/httputil.NewSingleHostReverseProxy")
+	if len(ctor) != 1 {
+		c.Unk(rule, "hostProxy:reverse-proxy", p, hp.Pos(), "the reverse proxy constructor call was not found")
+		return
+	}
+	rp := ctor[0].(ssa.Value)
+	bad := ""
+	nSess := 0
+	var visit func(v ssa.Value, depth int)
+	visit = func(v ssa.Value, depth int) {
+		if depth > 6 {
+			return
+		}
+		for _, u := range Refs(v) {
+			switch x := u.(type) {
+			case *ssa.DebugRef:
+			case *ssa.FieldAddr:
+				// field stores on the proxy (Transport, FlushInterval, ModifyResponse): judged by C02.W/C14.P
+			case *ssa.MakeInterface:
+				visit(x, depth+1)
+			case *ssa.ChangeInterface:
+				visit(x, depth+1)
+			case *ssa.Phi:
+				visit(x, depth+1)
+			case *ssa.Store:
+				// stored into the local handler variable: follow the loads of that cell
+				if cell, ok := x.Addr.(*ssa.Alloc); ok && x.Val == v {
+					for _, r := range Refs(cell) {
+						if ld, ok := r.(*ssa.UnOp); ok {
+							visit(ld, depth+1)
+						}
+						if mc, ok := r.(*ssa.MakeClosure); ok {
+							bad = "captured by the closure " + FuncName(mc.Fn.(*ssa.Function)) + " at " + p.Pos(mc.Pos())
+						}
+					}
+				}
+			case *ssa.Call:
+				n := CalleeName(x.Common())
+				if strings.HasSuffix(n, "agent/sessions.Cache).SessionHandler") {
+					nSess++
+					continue
+				}
+				if depth == 0 && x.Call.Value != v {
+					// a method call on the proxy value itself is not expected in hostProxy
+				}
+				bad = "passed to / called by " + n + " at " + p.Pos(x.Pos())
+			case *ssa.MakeClosure:
+				bad = "captured by the closure " + FuncName(x.Fn.(*ssa.Function)) + " at " + p.Pos(x.Pos())
+			case *ssa.Return:
+				bad = "returned unwrapped at " + p.Pos(x.Pos())
+			}
+		}
+	}
+	visit(rp, 0)
+	c.Check(rule, "hostProxy:proxy-only-behind-session-handler", p, hp.Pos(), bad == "" && nSess == 1, "the reverse proxy is handed to SessionHandler and to nothing else: every request and response passes the session handler", "the backend-facing reverse proxy is reachable around the session handler ("+bad+"): requests of that route keep the session cookie, miss the jar's cookies, and their responses' Set-Cookie reach the client")
+}
+
+// ruleRequestBodyUnread (C02): the agent does not read the body of the request
+// it is about to forward (a single Read taken for "the whole body" truncates
+// chunked bodies; any consumption alters what the backend receives).
+func ruleRequestBodyUnread(c *Ctx, p *Prog, rule string) {
+	n := 0
+	bad := ""
+	for _, name := range []string{"agent/utils.parseRequestFromProxyResponse", "agent/utils.ReadRequest", "agent.forwardRequest", "agent.processOneRequest"} {
+		f := p.Func(name)
+		if f == nil {
+			continue
+		}
+		for _, fn := range WithClosures(f) {
+			EachInstr(fn, func(i ssa.Instruction) {
+				cc := CallOf(i)
+				if cc == nil {
+					return
+				}
+				n++
+				nm := CalleeName(cc)
+				short := nm[strings.LastIndex(nm, ".")+1:]
+				switch short {
+				case "Read", "ReadAll", "ReadFull", "ReadAtLeast", "Copy", "CopyN", "CopyBuffer", "ReadFrom", "Discard", "Peek":
+				default:
+					return
+				}
+				for _, a := range Args(cc) {
+					isReqBody := false
+					SliceBack(a, func(v ssa.Value) bool {
+						if base, fld, ok := FieldLoad(v); ok && fld == "Body" && NamedType(base.Type()) == "net/http.Request" {
+							isReqBody = true
+						}
+						return true
+					})
+					if isReqBody {
+						bad = nm + " at " + p.Pos(i.Pos()) + " (in " + FuncName(fn) + ")"
+					}
+				}
+			})
+		}
+	}
+	c.Check(rule, "agent:request-body-not-read-before-forwarding", p, 0, n > 10 && bad == "", "the agent never reads the parsed request's Body itself: the backend reads it", "the agent reads the body of the request it forwards ("+bad+"): a short Read is not end-of-body (the chunked reader returns at chunk boundaries), so multi-chunk bodies are truncated or re-framed with a wrong length")
+}
+
+// ruleIndexSliceAgreement: an offset obtained by searching one string/slice is
+// only used to slice that same value (slicing another value — e.g. the
+// original after searching its ToLower copy — goes out of range or lands in
+// the wrong place; an out-of-range panic on the worker kills the agent).
+func ruleIndexSliceAgreement(c *Ctx, p *Prog, rule string, pkgs ...string) {
+	n := 0
+	bad := ""
+	for _, pk := range pkgs {
+		for _, fn := range p.FuncsIn(pk) {
+			for _, call := range Calls(fn, "strings.Index", "strings.IndexByte", "strings.IndexRune", "strings.IndexAny", "strings.LastIndex", "bytes.Index", "bytes.IndexByte", "bytes.LastIndex") {
+				if call.Parent() != fn {
+					continue
+				}
+				n++
+				src := CallOf(call).Args[0]
+				EachInstr(fn, func(i ssa.Instruction) {
+					sl, ok := i.(*ssa.Slice)
+					if !ok {
+						return
+					}
+					uses := false
+					for _, b := range []ssa.Value{sl.Low, sl.High} {
+						if b == nil {
+							continue
+						}
+						r, _ := DerivesFrom(b, func(v ssa.Value) bool { return v == call.(ssa.Value) }, func(ssa.Value) bool { return false })
+						if r {
+							uses = true
+						}
+					}
+					if uses && !SameValue(sl.X, src) {
+						bad = "the offset found in " + PathOf(src) + " is used to slice " + PathOf(sl.X) + " at " + p.Pos(sl.Pos())
+					}
+				})
+			}
+		}
+	}
+	c.Check(rule, "index-slice-agreement:"+strings.Join(pkgs, ","), p, 0, bad == "", fmt.Sprintf("%d index searches inspected: every offset is applied to the value it was found in", n), bad+": byte offsets do not carry over between a string and a transformed copy of it (ToLower changes lengths for İ, K and invalid UTF-8), so the slice can go out of range — a panic in the response hook that nothing recovers terminates the agent")
+}
+
+// ruleChainNotRetried: no call on the chain worker → ReadRequest → callback →
+// forwardRequest → NewResponseForwarder sits in a loop: the only retries of
+// an upload are the three attempts of postResponseWithRetries.
+func ruleChainNotRetried(c *Ctx, p *Prog, rule string) {
+	type link struct{ fn, callee, what string }
+	for _, l := range []link{
+		{"agent.processOneRequest", ModPath + "/agent/utils.ReadRequest", "ReadRequest (whose error also covers the forwarding callback and the upload)"},
+		{"agent.forwardRequest", ModPath + "/agent/utils.NewResponseForwarder", "NewResponseForwarder"},
+		{"agent.forwardRequest", "(net/http.Handler).ServeHTTP", "the backend handler"},
+	} {
+		f := c.need(p, rule, l.fn)
+		if f == nil {
+			continue
+		}
+		var hits []ssa.Instruction
+		for _, fn := range WithClosures(f) {
+			hits = append(hits, Calls(fn, l.callee)...)
+		}
+		ok := len(hits) == 1 && !InLoop(hits[0].Block())
+		c.Check(rule, "no-outer-retry:"+l.fn+"→"+shortCallee(l.callee), p, posOf(hits), ok, "called once, outside any loop", fmt.Sprintf("%s calls %s at %d site(s) / inside a loop: a retry at this level repeats the backend call and the whole three-attempt upload, so one response can be uploaded up to nine times", l.fn, l.what, len(hits)))
+	}
+}
+
+// ruleReplayDoesNotWaitForSource (C05): when the replay buffer has bytes to
+// hand out, Read returns them without also reading from the source — that
+// read blocks until the backend produces more, and a backend that waits for
+// the client to see the replayed chunk never does.
+func ruleReplayDoesNotWaitForSource(c *Ctx, p *Prog, rule string) {
+	rd := c.need(p, rule, "agent/utils.(*bufferedReadSeeker).Read")
+	if rd == nil {
+		return
+	}
+	var replay, src *ssa.Call
+	EachInstr(rd, func(i ssa.Instruction) {
+		call, ok := i.(*ssa.Call)
+		if !ok {
+			return
+		}
+		if b, isB := call.Call.Value.(*ssa.Builtin); isB && b.Name() == "copy" && len(call.Call.Args) == 2 {
+			if sl, isS := call.Call.Args[1].(*ssa.Slice); isS {
+				if _, f, ok := FieldLoad(sl.X); ok && f == "buf" {
+					replay = call
+				}
+			}
+		}
+		if call.Call.IsInvoke() && call.Call.Method.Name() == "Read" {
+			if _, f, ok := FieldLoad(call.Call.Value); ok && f == "r" {
+				src = call
+			}
+		}
+	})
+	if replay == nil || src == nil {
+		c.Unk(rule, "replay:returns-without-reading-the-source", p, rd.Pos(), "the replay copy or the source read was not found in bufferedReadSeeker.Read")
+		return
+	}
+	env := func(k int64) Env {
+		return func(v ssa.Value) (constant.Value, bool) {
+			if v == ssa.Value(replay) {
+				return IntC(k), true
+			}
+			return nil, false
+		}
+	}
+	h3, _ := (&Walk{Target: func(i ssa.Instruction) bool { return i == ssa.Instruction(src) }, Edge: EdgeUnder(env(3))}).FromBlock(rd.Blocks[0])
+	h0, _ := (&Walk{Target: func(i ssa.Instruction) bool { return i == ssa.Instruction(src) }, Edge: EdgeUnder(env(0))}).FromBlock(rd.Blocks[0])
+	c.Check(rule, "replay:returns-without-reading-the-source", p, src.Pos(), h3 == nil && h0 != nil, "with replayed bytes in hand Read returns them at once; the source is only read when nothing was replayed", "bufferedReadSeeker.Read reads from the source in the same call that replayed buffered bytes: after a failed upload attempt the retry holds the already flushed chunk back until the backend produces more output — a backend that waits for the client to see that chunk never does")
+}
+
+// ruleDialHandshakeBounded (C16.A): every websocket dial of the bridge is bounded in
+// time — through gorilla's DefaultDialer (45 s HandshakeTimeout), a Dialer whose
+// HandshakeTimeout is a positive constant, or a context with a deadline. gorilla
+// enforces the context during the handshake only through its deadline, so an
+// unbounded dial against a peer that accepts TCP and never answers the upgrade pins
+// the per-connection goroutine and both sockets for ever.
+func ruleDialHandshakeBounded(c *Ctx, p *Prog, rule string) {
+	n := 0
+	for _, pk := range []string{"utils/tcpbridge/connection", "utils/tcpbridge/tcp-bridge-frontend", "utils/tcpbridge/tcp-bridge-backend"} {
+		for _, fn := range p.FuncsIn(pk) {
+			for _, call := range Calls(fn, "(*github.com/gorilla/websocket.Dialer).DialContext", "(*github.com/gorilla/websocket.Dialer).Dial") {
+				if Owner(call) != fn && call.Parent() != fn {
+					continue
+				}
+				n++
+				cc := CallOf(call)
+				why := ""
+				bounded := false
+				positive := func(lit ssa.Value) bool {
+					v, has := LiteralField(lit, "HandshakeTimeout")
+					if !has {
+						return false
+					}
+					k, isC := ConstInt(v)
+					return isC && k > 0
+				}
+				for _, r := range Roots(cc.Args[0]) {
+					if u, isU := r.(*ssa.UnOp); isU && u.Op == token.MUL {
+						if g, isG := u.X.(*ssa.Global); isG {
+							r = g
+						}
+					}
+					switch x := r.(type) {
+					case *ssa.Global:
+						if x.Pkg != nil && x.Pkg.Pkg.Path() == "github.com/gorilla/websocket" && x.Name() == "DefaultDialer" {
+							bounded = true
+							continue
+						}
+						// a dialer of the module: every value stored into it must carry a timeout
+						ns, ok := 0, true
+						for _, g := range p.AllFuncs {
+							EachInstrRaw(g, func(i ssa.Instruction) {
+								if st, isSt := i.(*ssa.Store); isSt && st.Addr == ssa.Value(x) {
+									ns++
+									for _, rr := range Roots(st.Val) {
+										if !positive(rr) {
+											ok = false
+										}
+									}
+								}
+							})
+						}
+						if x.Pkg != nil {
+							if ini := x.Pkg.Func("init"); ini != nil {
+								EachInstrRaw(ini, func(i ssa.Instruction) {
+									if st, isSt := i.(*ssa.Store); isSt && st.Addr == ssa.Value(x) {
+										ns++
+										for _, rr := range Roots(st.Val) {
+											if !positive(rr) {
+												ok = false
+											}
+										}
+									}
+								})
+							}
+						}
+						if ns > 0 && ok {
+							bounded = true
+						} else {
+							why = "the dialer " + GlobalName(x) + " has no positive HandshakeTimeout"
+						}
+					case *ssa.Alloc:
+						if positive(x) {
+							bounded = true
+						} else {
+							why = "the websocket.Dialer literal sets no positive HandshakeTimeout"
+						}
+					default:
+						why = "the dialer " + PathOf(cc.Args[0]) + " is not one this rule can resolve"
+					}
+				}
+				if !bounded && CalleeName(cc) == "(*github.com/gorilla/websocket.Dialer).DialContext" {
+					for _, r := range Roots(cc.Args[1]) {
+						if CallResult(r, 0, "context.WithTimeout") != nil || CallResult(r, 0, "context.WithDeadline") != nil {
+							bounded = true
+						}
+					}
+				}
+				c.Check(rule, "dial:handshake-bounded:"+FuncName(fn), p, call.Pos(), bounded, "the websocket dial goes through gorilla's DefaultDialer (45 s handshake timeout), a dialer with a positive HandshakeTimeout, or a context with a deadline", why+": gorilla/websocket enforces the dial context during the handshake only through its deadline, so against a peer that accepts the TCP connection and never answers the upgrade the dial never returns — the goroutine serving that client never reads its socket again, does not notice the client closing, and keeps both connections open")
+			}
+		}
+	}
+	if n == 0 {
+		c.Unk(rule, "dial:handshake-bounded", p, 0, "no websocket dial found in the bridge packages")
+	}
 }
